@@ -69,7 +69,7 @@ func (j *JoinAcceptPayload) decode(buffer []byte, pos *int) error {
 	if buffer == nil || pos == nil {
 		return ErrNilError
 	}
-	if len(buffer) < (*pos + 6) {
+	if len(buffer) < (*pos + 12) {
 		return ErrBufferTruncated
 	}
 	copy(j.AppNonce[:], buffer[*pos:*pos+3])
